@@ -89,6 +89,13 @@ func prep(s string) string {
 			}
 			binders := strings.TrimSpace(s[len(q):i])
 			body := prep(s[i+2:])
+			// optional trigger `{t1, t2}` after the binders: the quantifier is instantiated only for
+			// terms matching all of t1, t2 (one multi-pattern)
+			if j := strings.Index(binders, "{"); j >= 0 && strings.HasSuffix(binders, "}") {
+				trig := binders[j+1 : len(binders)-1]
+				binders = strings.TrimSpace(binders[:j])
+				body = "trig_(" + body + ", " + prep(trig) + ")"
+			}
 			return fmt.Sprintf("%s_(func(%s) bool { return %s })", q, binders, body)
 		}
 	}
@@ -1026,10 +1033,22 @@ func (x *Ex) call(v *ast.CallExpr, want *Sort) *T {
 			}
 		}
 		ret := fl.Body.List[0].(*ast.ReturnStmt).Results[0]
+		var pats []string
+		if call, ok := ret.(*ast.CallExpr); ok {
+			if id, ok := call.Fun.(*ast.Ident); ok && id.Name == "trig_" && len(call.Args) >= 2 {
+				ret = call.Args[0]
+				for _, pa := range call.Args[1:] {
+					pats = append(pats, c.tr(pa, nil).S)
+				}
+			}
+		}
 		body := c.tr(ret, sBool)
 		q := "forall"
 		if fn.Name == "exists_" {
 			q = "exists"
+		}
+		if len(pats) > 0 {
+			return mk(fmt.Sprintf("(%s (%s) (! %s :pattern (%s)))", q, strings.Join(binds, " "), body.S, strings.Join(pats, " ")), sBool)
 		}
 		return mk(fmt.Sprintf("(%s (%s) %s)", q, strings.Join(binds, " "), body.S), sBool)
 	case "ite":
@@ -1091,6 +1110,12 @@ func (x *Ex) call(v *ast.CallExpr, want *Sort) *T {
 	case "cap":
 		argN(1)
 		a := x.tr(v.Args[0], nil)
+		if a.GoT != nil {
+			if _, isChan := types.Unalias(a.GoT).Underlying().(*types.Chan); isChan {
+				x.enc.decl("chcap", "(declare-fun chcap (Int) (_ BitVec 64))")
+				return mk(sapp("chcap", a.S), sI64)
+			}
+		}
 		return mk(sapp("sl_cap", a.S), sI64)
 	case "has":
 		argN(2)
@@ -1162,6 +1187,11 @@ func (x *Ex) call(v *ast.CallExpr, want *Sort) *T {
 		argN(1)
 		a := x.tr(v.Args[0], sSlice)
 		return mk(sapp("sl_off", a.S), sI64)
+	case "sent":
+		// sent(ch): number of send statements executed on channel ch by this thread of control
+		argN(1)
+		a := x.tr(v.Args[0], nil)
+		return mk(sapp("select", x.state().get("G$chansent", arrSort(sRef, sI64)).S, a.S), sI64)
 	case "zeroOf":
 		// the zero value of the argument's type
 		argN(1)
